@@ -8,6 +8,7 @@ import (
 	"github.com/elastic/go-structform/gotype"
 	"pgregory.net/rapid"
 
+	"verif/harness/gen"
 	"verif/harness/gomodel"
 	"verif/harness/model"
 )
@@ -264,12 +265,22 @@ func drawC20(t *rapid.T) any {
 		Target: rapid.SampledFrom([]string{"map_iface", "map_int", "iface", "map_struct", "struct_map"}).Draw(t, "target"),
 		Via:    rapid.SampledFrom([]string{"direct", "direct", "json", "ubjson", "cborl"}).Draw(t, "via"),
 	}
+	alphabet := c20Alphabet
+	if rapid.IntRange(0, 2).Draw(t, "ownalpha") == 0 {
+		// a small alphabet of generated keys per history (one- and two-byte keys
+		// over the whole byte range, escapes, long keys): still small enough for
+		// hits, evictions and re-insertions
+		alphabet = nil
+		for i, n := 0, rapid.IntRange(3, 8).Draw(t, "nalpha"); i < n; i++ {
+			alphabet = append(alphabet, gen.Key(t, c.Via == "json", "akey"))
+		}
+	}
 	nd := rapid.IntRange(1, 8).Draw(t, "ndocs")
 	for i := 0; i < nd; i++ {
 		nk := rapid.IntRange(0, 6).Draw(t, "nkeys")
 		d := C20Doc{Keys: [][]byte{}, Vals: []int64{}}
 		for j := 0; j < nk; j++ {
-			d.Keys = append(d.Keys, rapid.SampledFrom(c20Alphabet).Draw(t, "key"))
+			d.Keys = append(d.Keys, rapid.SampledFrom(alphabet).Draw(t, "key"))
 			d.Vals = append(d.Vals, int64(rapid.IntRange(-3, 300).Draw(t, "val")))
 		}
 		c.Docs = append(c.Docs, d)
@@ -288,7 +299,7 @@ func drawC20(t *rapid.T) any {
 func init() {
 	register(&Property{
 		ID:    "C20",
-		Rule:  "histories of 1..8 documents whose keys come from a 10-key alphabet (hits, misses, evictions, re-insertions; empty, non-ASCII and long keys; duplicates within a document) delivered BY REFERENCE from scratch buffers that are overwritten right after every callback / Write — directly and through the json, ubjson and cborl parsers with generated chunkings — into map[string]interface{}, map[string]int, interface{}, reflection-built map[string]struct and struct{M map[string][]int}, with key-cache capacity in {0,1,2,3,5,8,64}; oracle = after every document the result equals that of an identical unfolder without cache, all earlier results are re-checked at the end (cached keys intact), the cache never exceeds its capacity, no panic; non-trivial = at least one eviction followed by a re-insertion of the evicted key (measured through the recency hook); distinct by case hash",
+		Rule:  "histories of 1..8 documents whose keys come from a 10-key alphabet, 1 in 3 histories from 3..8 generated keys (one- and two-byte keys over the whole byte range, escapes, long keys) (hits, misses, evictions, re-insertions; empty, non-ASCII and long keys; duplicates within a document) delivered BY REFERENCE from scratch buffers that are overwritten right after every callback / Write — directly and through the json, ubjson and cborl parsers with generated chunkings — into map[string]interface{}, map[string]int, interface{}, reflection-built map[string]struct and struct{M map[string][]int}, with key-cache capacity in {0,1,2,3,5,8,64}; oracle = after every document the result equals that of an identical unfolder without cache, all earlier results are re-checked at the end (cached keys intact), the cache never exceeds its capacity, no panic; non-trivial = at least one eviction followed by a re-insertion of the evicted key (measured through the recency hook); distinct by case hash",
 		New:   func() any { return &C20Case{} },
 		Draw:  drawC20,
 		Check: checkC20,
